@@ -174,6 +174,15 @@ int main()
     dump_list_rec<arch_list<sse2, avx512f, avx2>>("custom1");
     dump_list_rec<arch_list<sse4_2, sse2>>("custom2");
     dump_list_rec<arch_list<avx, sse3>>("custom3");
+    // every order of three different alignments (the maximum first, in the middle, last) and a longer unordered list
+    dump_list_rec<arch_list<sse2, avx, avx512f>>("perm_abc");
+    dump_list_rec<arch_list<sse2, avx512f, avx>>("perm_acb");
+    dump_list_rec<arch_list<avx, sse2, avx512f>>("perm_bac");
+    dump_list_rec<arch_list<avx, avx512f, sse2>>("perm_bca");
+    dump_list_rec<arch_list<avx512f, sse2, avx>>("perm_cab");
+    dump_list_rec<arch_list<avx512f, avx, sse2>>("perm_cba");
+    dump_list_rec<arch_list<avx2, sse4_2, sse2, avx, ssse3, avx512bw, sse3>>("unordered7");
+    dump_list_rec<arch_list<avx512f>>("single");
     printf("{\"k\":\"defaults\",\"best_arch\":\"%s\",\"default_arch\":\"%s\",\"x86_arch\":\"%s\"}\n", nm<best_arch>::get(), nm<default_arch>::get(), nm<x86_arch>::get());
     dump_sized_all<int8_t>();
     dump_sized_all<uint8_t>();
